@@ -58,6 +58,10 @@ func TestCheck(t *testing.T) {
 			replaySub(t, run, d)
 		case "queue":
 			replayQueue(run, d)
+		case "ecies":
+			runECIES(run)
+		case "peer":
+			runPeerWedge(run)
 		default:
 			ev.Broken("replay file without a known part")
 		}
@@ -120,6 +124,8 @@ func TestCheck(t *testing.T) {
 	part("rlpx", func() { runRLPx(run, deadline) })
 	part("hs", func() { runHS(run, deadline) })
 	part("queue", func() { runQueue(run) })
+	part("ecies", func() { runECIES(run) })
+	part("peer", func() { runPeerWedge(run) })
 	wg.Wait()
 	if stopProf != nil {
 		stopProf()
